@@ -36,7 +36,7 @@ Failed(c, k, kb, bs, cl, e) ==
          (IF cl THEN {"write-after-close"} ELSE {})
          \cup StepFailed(c, k, kb, bs, e.id, e.size, e.cur, e.cb, e.files) \cup Garbage(e)
     [] e.ev = "close" ->
-         (IF e.cur = k /\ e.cb = kb /\ e.files = bs THEN {} ELSE {"changed-by-close"}) \cup Garbage(e)
+         (IF e.cur = k /\ e.cb = kb /\ SameFiles(e.files, bs) THEN {} ELSE {"changed-by-close"}) \cup Garbage(e)
     [] e.ev = "daychange" -> {}
     [] e.ev = "init" -> {}
     [] OTHER -> {"unknown-event"}
